@@ -29,7 +29,11 @@ def norm_tokens(text):
             out.append(('bin', t[1:]))
         else:
             out.append(('op', t))
-    # merge split string literals  'a' + 'b'
+    return merge_strings(out)
+
+
+def merge_strings(out):
+    """merge split string literals  'a' + 'b'"""
     merged = []
     i = 0
     while i < len(out):
@@ -132,6 +136,8 @@ def minimal_parens(toks):
                 if prev is not None:
                     if prev[0] == 'id' and pv not in PREC and pv not in UNARY and pv not in ('if', 'then', 'else', 'while', 'until', 'case', 'to', 'by', 'where', 'derive'):
                         grouping = False       # function call, type length, ONEOF(...), SUBTYPE OF (...), RETURN(...)
+                    if prev == ('id', 'of') and not (i >= 2 and toks[i - 2] in (('id', 'subtype'), ('id', 'supertype'))):
+                        grouping = True        # CASE x OF ( label ) : ...  - the parenthesis groups the first case label
                     if prev[0] == 'op' and pv in (')', ']'):
                         grouping = False
                 inner = toks[i + 1:j]
@@ -151,8 +157,10 @@ def minimal_parens(toks):
                         if True:
                             same_assoc = len(set(ops)) == 1 and ops[0] in ('+', '*', 'and', 'or', 'xor', '||', 'andor')
                             lok = (not left_is_op and not left_is_unary) or (left_is_op and PREC[pv] < p) or (left_is_op and same_assoc and pv == ops[0])
-                            rok = (not right_is_op) or PREC[_val(nxt)] < p or (PREC[_val(nxt)] == p and p in (4, 5) and not left_is_op)
-                            if right_is_op and PREC[_val(nxt)] == p and p in (4, 5) and left_is_op and PREC[pv] < p:
+                            # operators of one precedence level are evaluated left to right (ISO 10303-11 clause 12): a group that is the
+                            # LEFT operand of an operator of its own level is redundant
+                            rok = (not right_is_op) or PREC[_val(nxt)] < p or (PREC[_val(nxt)] == p and not left_is_op)
+                            if right_is_op and PREC[_val(nxt)] == p and left_is_op and PREC[pv] < p:
                                 rok = True
                             redundant = lok and rok
                     if redundant:
@@ -283,7 +291,13 @@ def expand_id_lists(toks):
 
 def canon_decl(toks):
     """canonical token list of one declaration: minimal parentheses; identifier lists expanded; LOCAL items sorted"""
-    toks = expand_id_lists(minimal_parens(toks))
+    toks = minimal_parens(toks)
+    while True:                      # ( 'a' + 'b' ) + 'c' : the literal can be joined only once the parentheses are gone
+        t2 = minimal_parens(merge_strings(toks))
+        if t2 == toks:
+            break
+        toks = t2
+    toks = sort_nested(expand_id_lists(toks))
     # sort the items of a LOCAL block (the printer alphabetises scopes)
     out = []
     i = 0
@@ -302,6 +316,39 @@ def canon_decl(toks):
             for it in sorted(items, key=lambda x: repr(x)):
                 out += it
             i = j
+            continue
+        out.append(toks[i])
+        i += 1
+    return out
+
+
+def sort_nested(toks):
+    """FUNCTION/PROCEDURE declarations nested in an algorithm head: a run of them is sorted by name (the printer alphabetises scopes)"""
+    if not toks or toks[0] not in (('id', 'function'), ('id', 'procedure'), ('id', 'rule')):
+        return toks
+    out = [toks[0]]
+    i = 1
+    n = len(toks)
+    while i < n:
+        if toks[i] in (('id', 'function'), ('id', 'procedure')):
+            blocks = []
+            while i < n and toks[i] in (('id', 'function'), ('id', 'procedure')):
+                v = toks[i][1]
+                depth = 0
+                j = i
+                while j < n:
+                    if toks[j] == ('id', v):
+                        depth += 1
+                    elif toks[j] == ('id', BLOCKS[v]):
+                        depth -= 1
+                        if depth == 0:
+                            break
+                    j += 1
+                end = min(j + 2, n)            # END_x ;
+                blocks.append(sort_nested(toks[i:end]))
+                i = end
+            for b in sorted(blocks, key=lambda b: (b[0][1], repr(b[1]))):
+                out += b
             continue
         out.append(toks[i])
         i += 1
